@@ -74,6 +74,13 @@ def slice_function(path, signature_re):
 C_KEYWORDS = {"if", "for", "while", "switch", "return", "sizeof", "do", "else", "case", "defined", "typeof", "__attribute__"}
 
 
+def _no_comments(text):
+    """C text without comments and string literals (a function named in a comment is not a call)."""
+    text = re.sub(r"/\*.*?\*/", " ", text, flags=re.S)
+    text = re.sub(r"//[^\n]*", " ", text)
+    return re.sub(r'"(?:\\.|[^"\\])*"', '""', text)
+
+
 def slice_with_static_deps(path, signature_res, provided=()):
     """slice_function() for every signature, plus - transitively - the `static` functions of the
     same file that the sliced text calls, so that a refactoring which moves code into a new static
@@ -90,7 +97,7 @@ def slice_with_static_deps(path, signature_res, provided=()):
     src0 = open(path, encoding="utf-8", errors="replace").read()
     while todo:
         text = todo.pop()
-        for name in sorted(set(re.findall(r"\b([A-Za-z_]\w*)\s*\(", text))):
+        for name in sorted(set(re.findall(r"\b([A-Za-z_]\w*)\s*\(", _no_comments(text)))):
             if name in have or name in provided or name in C_KEYWORDS:
                 continue
             try:
@@ -120,7 +127,7 @@ def slice_with_static_deps(path, signature_res, provided=()):
     grew = True
     while grew:
         grew = False
-        for ident in sorted(set(re.findall(r"\b[A-Za-z_]\w*\b", body + "\n".join(extra)))):
+        for ident in sorted(set(re.findall(r"\b[A-Za-z_]\w*\b", _no_comments(body + "\n".join(extra))))):
             if ident in seen or ident in have or ident in provided:
                 continue
             m = re.search(r"^#[ \t]*define[ \t]+%s\b.*(?:\\\n.*)*" % re.escape(ident), src, re.M)
